@@ -14,6 +14,13 @@ func init() {
 		_ = fs.Parse(args)
 		return gltffam.RunCases(*in, *out)
 	}
+	commands["gltf-session-exec"] = func(args []string) error {
+		fs := flag.NewFlagSet("gltf-session-exec", flag.ExitOnError)
+		in := fs.String("in", "", "export histories ndjson (specs/GltfSession.tla)")
+		out := fs.String("out", "", "trace ndjson (one line per export)")
+		_ = fs.Parse(args)
+		return gltffam.RunSessions(*in, *out)
+	}
 	commands["gltf-random"] = func(args []string) error {
 		fs := flag.NewFlagSet("gltf-random", flag.ExitOnError)
 		out := fs.String("out", "", "scene descriptors ndjson")
